@@ -24,8 +24,10 @@ def run(chk):
     ]
     run_plan(chk, "C17", plan, nontrivial)
     chk.cov["rule"] = ("seeded small net lists (1..6 cells, nets of degree 2..4, fixed pins, dyadic offsets k/4, dyadic weights 1/4..2 incl. values below 1, "
-                       "penalties with targets and cutoffs, all four net models, solver tolerances 1e-4 / 1e-6): (a) solveStar, solve and solveWithPenalty are "
-                       "re-run with all weights and penalty strengths scaled by 2^k (k = -3..4): TLC compares the float bit patterns (must be identical) and by "
+                       "penalties with targets and cutoffs, all four net models, solver tolerances 1e-4 / 1e-6), each built through one of the three public paths "
+                       "(addNet with fixed pins as cell -1; addNet with minPin/maxPin; NetModel::xTopology of a Circuit with setNetWeights): (0) TLC compares the net "
+                       "list held by the built model, pins and weights, with the instance (also with all weights / 8); (a) solveStar, solve and solveWithPenalty are "
+                       "re-run with all weights and penalty strengths scaled by 2^k (k = -24, -16, -10, -3..4, 10, 20): TLC compares the float bit patterns (must be identical) and by "
                        "2.5 / 7 (within tolerance on the linear star model; later steps only for the continuous clique model); (b) TLC evaluates the gradient "
                        "of the documented quadratic at the returned star solution in fixed point and checks stationarity; non-trivial = some weight below 1")
     chk.assumptions += ["the specification does not model the conjugate-gradient iteration: exploration with a TLA+ oracle",
